@@ -36,6 +36,20 @@ var parsedCheck = &core.Check{Name: "c06/parsed-cell", Quick: 6000, Thorough: 60
 		return fmt.Errorf("HARNESS: %v", err)
 	}
 	cell := cells[0]
+	if c.Intn("built", 3) == 0 {
+		// the same for a cell that was built in memory with exactly these bits and references
+		cell = boc.NewCell()
+		_ = cell.WriteBitString(bitString(model))
+		for i := range kids {
+			k := boc.NewCell()
+			_ = k.WriteUint(uint64(i), 8)
+			_ = cell.AddRef(k)
+		}
+		c.Class("cell built in memory")
+	}
+	// a copy taken now (what a decoder keeps of a cell) is a value of its own: it still hashes like the cell
+	// did at this moment after the cell was written to
+	snap, snapWant := cell.CopyRemaining(), image.ReprHash()
 	c.Note("parsed", fmt.Sprintf("%d bits, %d references", n, len(kids)))
 	var ops []string
 	defer func() { c.Note("ops", ops) }()
@@ -116,6 +130,9 @@ var parsedCheck = &core.Check{Name: "c06/parsed-cell", Quick: 6000, Thorough: 60
 			return fmt.Errorf("AddRef to a parsed cell with %d references: %v", len(kids), err)
 		}
 		kids = append(kids, k)
+	}
+	if sh, err := snap.Hash(); err != nil || !bytes.Equal(sh, snapWant) {
+		return fmt.Errorf("a copy (CopyRemaining) taken from a cell of %d bits before %d writes to that cell now hashes to %x (%v), it was %x", n, wrote+refused, sh, err, snapWant)
 	}
 	want := ref.NewRCell(model, false, kids...)
 	h, err := cell.Hash()
